@@ -798,6 +798,9 @@ class CtxAwareTransformer(NodeTransformer):
         self.generic_visit(node)
         return node
 
+    # ``except* E as name`` (TryStar, Python 3.11+) binds names like ``except``
+    visit_TryStar = visit_Try
+
     def visit_Global(self, node):
         """Handle visiting a global statement."""
         self.contexts[1].update(node.names)  # contexts[1] is the global ctx
